@@ -1,6 +1,7 @@
 import GdcVerif.Model.JpegAddr
 import GdcVerif.Lemmas.JpegAddr
 import GdcVerif.Lemmas.JpegAddrFull
+import GdcVerif.Lemmas.JpegAc
 /-!
   C15 — JPEG DCT streams and decoders agree with an independent implementation.  PARTIAL.
 
@@ -15,6 +16,8 @@ import GdcVerif.Lemmas.JpegAddrFull
   * `c15_restart_intervals`: the scan collection cuts the entropy-coded data exactly at the RSTn markers (and
     nowhere else), without DRI behaves as before, and the MCU loop switches interval / resets the DC predictors
     exactly before MCUs Ri, 2Ri, … (T.81 E.1.4).
+  * `c15_ac_runlength_roundtrip`: the decoder's AC run/size loop inverts the encoder's for every coefficient block
+    (symbol level; tied to baseline.Decode by `jpg-acblock`, to the reference encoder by `jpg-acsyms`).
   * `c15_repack_tight`: DecodeSimple's grey row copy reads inside Pix and fills width·height samples bijectively.
 -/
 namespace JpegAddr
@@ -109,3 +112,17 @@ theorem c15_repack_tight (w h x y : Nat) (hx : x < w) (hy : y < h) :
 example : pixLen 1 1 = 64 ∧ repackDst 17 16 8 = 152 ∧ repackSrc 24 16 8 = 208 := by decide
 
 end JpegAddr
+
+namespace JpegAc
+
+/-- (4) run-length coding of the AC coefficients: decodeBlock's AC loop (code-shaped model: ZRL advances 16, EOB ends,
+    `k += r`, EXTEND) applied to the symbols encodeBlock's AC loop emits for ANY 63 coefficients (zig-zag order, each
+    |v| < 2^15, i.e. category ≤ 15) returns exactly those coefficients — every position 1..63, zero runs of any length
+    (≥ 16, ≥ 32, ≥ 48 included), trailing zeros via EOB, a non-zero last coefficient without EOB -/
+theorem c15_ac_runlength_roundtrip (ac : List Int) (hl : ac.length = 63) (hb : ∀ v ∈ ac, v.natAbs < 2 ^ 15) :
+    decodeAC (encAC ac 0) = some ac := decode_encode ac hl hb
+example : encAC (List.replicate 62 0 ++ [5]) 0 = [ZRL, ZRL, ZRL, (14 * 16 + 3, 5)] ∧
+    encAC ([0, -2] ++ List.replicate 61 0) 0 = [(1 * 16 + 2, 1), EOB] ∧
+    decodeAC [ZRL, ZRL, ZRL, (14 * 16 + 3, 5)] = some (List.replicate 62 0 ++ [5]) := by decide
+
+end JpegAc
